@@ -213,7 +213,13 @@ func (p *Proxy) call(ctx context.Context, m *GoMethod, args ...Object) Object {
 		return ArgsErrorf("args error: %s() received %d more arguments than it accepts",
 			methodFullName, len(args)-argIndex)
 	}
-	outputs := m.method.Func.Call(inputs)
+	var outputs []reflect.Value
+	if isVariadic && len(inputs) == numIn {
+		// The variadic parameter was given as a list and converted to a slice
+		outputs = m.method.Func.CallSlice(inputs)
+	} else {
+		outputs = m.method.Func.Call(inputs)
+	}
 	if len(outputs) == 0 {
 		return Nil
 	}
